@@ -1,4 +1,5 @@
 import SstModel.Lemmas.TableTotal
+import SstModel.Lemmas.AllocBound
 /-
   C08 — the reader is total on arbitrary input.
 
@@ -71,6 +72,176 @@ theorem C08_session_cache (it : TableIter) (h : IterOK it) (ops : List Spec.Iter
   obtain ⟨_, _, _, _, h1⟩ := iter_run_total it h ops w hc
   exact h1
 
+/-! ### "… or allocating without bound" (after fix D20)
+
+  `World.allocs` logs the size of every buffer the reader allocates: the `read_bytes` buffers, the footer
+  buffer, and the buffer `Decoder::decompress_vec` allocates up front for the length DECLARED by a
+  snappy block. The theorems below bound every logged size by a multiple of the declared file size, for
+  ANY file bytes, fault schedule, cache contents and outcome (`ok`, `err`, anything). -/
+
+/-- the guard of fix D20 is invisible in results: the guarded decompression returns `ok d` exactly when
+    the unguarded decoder (`decompress_vec`) returns `d`, and `CompressionError` otherwise — the guard only
+    turns decodes that fail anyway into the same error earlier, before the allocation -/
+theorem C08_decompress_guard_invisible (data : Bytes) (w : World) :
+    (∀ d, (decompressGuarded data w).2 = .ok d ↔ Snappy.decode data = some d)
+      ∧ (Snappy.decode data = none ↔ (decompressGuarded data w).2 = .err .compressionError)
+      ∧ (decompressGuarded data w).2 =
+          (match Snappy.decode data with
+           | some d => .ok d
+           | none => .err .compressionError) := by
+  have h := decompressGuarded_result data w
+  refine ⟨?_, ?_, h⟩
+  · intro d
+    rw [h]
+    cases hd : Snappy.decode data with
+    | some d' => simp
+    | none => simp
+  · rw [h]
+    cases hd : Snappy.decode data with
+    | some d' => simp
+    | none => simp
+
+/-- … hence `read_block_contents` returns what it returned before the fix (`verifyBlock` uses the
+    unguarded decoder), under any schedule -/
+theorem C08_guard_invisible_read (file : Nat) (loc : BlockHandle) (w : World) :
+    (readBlockContents file loc w).2 =
+      (match (readBytes file ⟨loc.offset, loc.size + Consts.tableBlockCksumLen + Consts.tableBlockCompressLen⟩ w).2 with
+       | .ok buf => verifyBlock buf loc.size
+       | .err c => .err c
+       | .panic s => .panic s
+       | .diverge => .diverge) := by
+  rw [readBlockContents_eq]
+  rcases readBytes file ⟨loc.offset, loc.size + Consts.tableBlockCksumLen + Consts.tableBlockCompressLen⟩ w
+    with ⟨w', r⟩
+  cases r <;> rfl
+
+/-- streams the decoder accepts declare at most 32 × their own length (in fact 22 ×), so the guard
+    never fires on them -/
+theorem C08_valid_streams_pass_guard (data d : Bytes) (h : Snappy.decode data = some d) :
+    Snappy.declaredLen data = some d.length ∧ d.length ≤ 22 * data.length
+      ∧ d.length ≤ Consts.snappyMaxExpansion * data.length := by
+  refine ⟨Snappy.decode_declared h, Snappy.decode_length_le h, ?_⟩
+  obtain ⟨n, hn, hle⟩ := Snappy.decode_passes_guard h
+  rw [Snappy.decode_declared h] at hn
+  cases hn
+  exact hle
+
+/-- the witness of D20: five bytes declaring 2^32-1 bytes. Before the fix `decompress_vec` allocated
+    4 GiB for them and then failed; now they are rejected with the same error and NO allocation (the
+    world is unchanged) -/
+theorem C08_length_bomb_rejected (w : World) :
+    Snappy.declaredLen [0xff, 0xff, 0xff, 0xff, 0x0f] = some 4294967295
+      ∧ Snappy.decode [0xff, 0xff, 0xff, 0xff, 0x0f] = none
+      ∧ decompressGuarded [0xff, 0xff, 0xff, 0xff, 0x0f] w = (w, .err .compressionError) := by
+  have h1 : Snappy.declaredLen [0xff, 0xff, 0xff, 0xff, 0x0f] = some 4294967295 := by decide
+  refine ⟨h1, by decide, ?_⟩
+  unfold decompressGuarded
+  rw [h1]
+  rfl
+
+/-- `Table::read_block` (any handle, any world, any table handle): every allocation it adds is at most
+    33 × the declared file size — the read buffer is within the file (`check_block_bounds`), the
+    decompression buffer at most `SNAPPY_MAX_EXPANSION` × the block's stored size -/
+theorem C08_allocs_bounded_read_block (tb : Table) (loc : BlockHandle) (w : World) :
+    ∀ a ∈ (tb.readBlock loc w).1.allocs, a ∈ w.allocs ∨ a ≤ 33 * tb.fileSize :=
+  (AB.alloc_readBlock (B := 33 * tb.fileSize) tb loc (Nat.le_refl _) w).1
+
+/-- `read_table_block` / `table_block::read_filter_block` on a handle that passed `check_block_bounds` -/
+theorem C08_allocs_bounded_read_table_block (file : Nat) (loc : BlockHandle) (fileSize : Nat) (w : World)
+    (hb : loc.size + Consts.tableBlockCompressLen + Consts.tableBlockCksumLen ≤ fileSize) :
+    (∀ a ∈ (readTableBlock file loc w).1.allocs, a ∈ w.allocs ∨ a ≤ 33 * fileSize)
+      ∧ (∀ a ∈ (Sst.readFilterBlock file loc w).1.allocs, a ∈ w.allocs ∨ a ≤ 33 * fileSize) :=
+  ⟨(AB.alloc_readTableBlock (B := 33 * fileSize) file loc hb (Nat.le_refl _) w).1,
+   (AB.alloc_readFilterBlock (B := 33 * fileSize) file loc hb (Nat.le_refl _) w).1⟩
+
+/-- `Table::read_filter_block` (metaindex lookup, bounds check, filter block read) -/
+theorem C08_allocs_bounded_read_filter_block (metaix : Bytes) (file fileSize : Nat) (opt : ROpts)
+    (w : World) :
+    ∀ a ∈ (Table.readFilterBlock metaix file fileSize opt w).1.allocs,
+      a ∈ w.allocs ∨ a ≤ 33 * fileSize :=
+  (AB.alloc_tableReadFilterBlock (B := 33 * fileSize) metaix file fileSize opt (Nat.le_refl _) w).1
+
+/-- `Table::new` for ANY file bytes, declared size, options and fault schedule, whatever the outcome:
+    every allocation is at most 33 × the declared size + the 48-byte footer buffer -/
+theorem C08_allocs_bounded_open (opt : ROpts) (file size : Nat) (w : World) :
+    ∀ a ∈ (Table.new opt file size w).1.allocs, a ∈ w.allocs ∨ a ≤ 33 * size + 48 :=
+  (AB.alloc_new (B := 33 * size + 48) opt file size (Nat.le_add_left _ _) (Nat.le_add_right _ _) w).1
+
+/-- the handle `Table::new` returns records the declared size -/
+theorem C08_open_fileSize (opt : ROpts) (file size : Nat) (w : World) (tb : Table)
+    (hopen : (Table.new opt file size w).2 = .ok tb) : tb.fileSize = size :=
+  (AB.alloc_new (B := 33 * size + 48) opt file size (Nat.le_add_left _ _) (Nat.le_add_right _ _) w).2 tb hopen
+
+/-- lookups on any table handle in any world -/
+theorem C08_allocs_bounded_get (tb : Table) (k : Bytes) (w : World) :
+    (∀ a ∈ (tb.get k w).1.allocs, a ∈ w.allocs ∨ a ≤ 33 * tb.fileSize)
+      ∧ (∀ a ∈ (tb.approxOffsetOf k w).1.allocs, a ∈ w.allocs ∨ a ≤ 33 * tb.fileSize) :=
+  ⟨(AB.alloc_get (B := 33 * tb.fileSize) tb k (Nat.le_refl _) w).1,
+   (AB.alloc_approx (B := 33 * tb.fileSize) tb k w).1⟩
+
+/-- one iterator call from ANY iterator state in any world: bounded allocations, and the iterator stays
+    on its table (so the bound carries over to the next call) -/
+theorem C08_allocs_bounded_call (it : TableIter) (op : Spec.IterOp) (w : World) :
+    (∀ a ∈ (it.call op w).1.allocs, a ∈ w.allocs ∨ a ≤ 33 * it.table.fileSize)
+      ∧ (∀ r, (it.call op w).2 = .ok r → r.1.table = it.table) :=
+  AB.alloc_call (B := 33 * it.table.fileSize) it op (Nat.le_refl _) w
+
+/-- every finite history of iterator calls from ANY iterator state -/
+theorem C08_allocs_bounded_run (it : TableIter) (ops : List Spec.IterOp) (w : World) :
+    (∀ a ∈ (it.run ops w).1.allocs, a ∈ w.allocs ∨ a ≤ 33 * it.table.fileSize)
+      ∧ (∀ r, (it.run ops w).2 = .ok r → r.1.table = it.table) :=
+  AB.alloc_run (B := 33 * it.table.fileSize) ops it (Nat.le_refl _) w
+
+/-- C08, allocations of a whole session: for every byte string, declared size, options and fault
+    schedule, on any handle `Table::new` returned, in ANY later worlds (`w1`, `w2`, `w3`, `w4`: the file
+    may have changed, any fault schedule, any cache): lookups, creating an iterator and every finite
+    history of iterator calls allocate at most 33 × the declared size per buffer -/
+theorem C08_allocs_bounded_session (opt : ROpts) (file size : Nat) (w : World) (tb : Table)
+    (hopen : (Table.new opt file size w).2 = .ok tb) (k : Bytes) (ops : List Spec.IterOp)
+    (w1 w2 w3 w4 : World) :
+    (∀ a ∈ (tb.get k w1).1.allocs, a ∈ w1.allocs ∨ a ≤ 33 * size)
+      ∧ (∀ a ∈ (tb.approxOffsetOf k w2).1.allocs, a ∈ w2.allocs ∨ a ≤ 33 * size)
+      ∧ (∀ a ∈ (TableIter.new tb w3).1.allocs, a ∈ w3.allocs ∨ a ≤ 33 * size)
+      ∧ (∀ it, (TableIter.new tb w3).2 = .ok it →
+          ∀ a ∈ (it.run ops w4).1.allocs, a ∈ w4.allocs ∨ a ≤ 33 * size) := by
+  have hsz := C08_open_fileSize opt file size w tb hopen
+  have hg := C08_allocs_bounded_get tb k
+  rw [hsz] at hg
+  refine ⟨(hg w1).1, (hg w2).2, ?_, ?_⟩
+  · exact (AB.alloc_iterNew (B := 33 * size) tb w3).1
+  · intro it hit
+    have ht : it.table = tb := (AB.alloc_iterNew (B := 33 * size) tb w3).2 it hit
+    have := (C08_allocs_bounded_run it ops w4).1
+    rw [ht, hsz] at this
+    exact this
+
+/-- the same as an invariant: if every buffer logged so far is within `33 * size + 48`, it stays so
+    through open, lookups and iterator histories -/
+theorem C08_allocs_invariant (opt : ROpts) (file size : Nat) (w : World)
+    (hw : ∀ a ∈ w.allocs, a ≤ 33 * size + 48) :
+    (∀ a ∈ (Table.new opt file size w).1.allocs, a ≤ 33 * size + 48)
+      ∧ ∀ tb, (Table.new opt file size w).2 = .ok tb → ∀ (w1 : World),
+          (∀ a ∈ w1.allocs, a ≤ 33 * size + 48) →
+          (∀ k, ∀ a ∈ (tb.get k w1).1.allocs, a ≤ 33 * size + 48)
+            ∧ (∀ (it : TableIter), it.table = tb → ∀ (ops : List Spec.IterOp),
+                ∀ a ∈ (it.run ops w1).1.allocs, a ≤ 33 * size + 48) := by
+  refine ⟨?_, ?_⟩
+  · intro a ha
+    rcases C08_allocs_bounded_open opt file size w a ha with h | h
+    · exact hw a h
+    · exact h
+  · intro tb hopen w1 hw1
+    have hsz := C08_open_fileSize opt file size w tb hopen
+    refine ⟨?_, ?_⟩
+    · intro k a ha
+      rcases (C08_allocs_bounded_get tb k w1).1 a ha with h | h
+      · exact hw1 a h
+      · rw [hsz] at h; omega
+    · intro it ht ops a ha
+      rcases (C08_allocs_bounded_run it ops w1).1 a ha with h | h
+      · exact hw1 a h
+      · rw [ht, hsz] at h; omega
+
 end Sst
 
 #print axioms Sst.cacheValid_empty
@@ -80,3 +251,17 @@ end Sst
 #print axioms Sst.C08_session_total
 #print axioms Sst.C08_call_total
 #print axioms Sst.C08_session_cache
+#print axioms Sst.C08_decompress_guard_invisible
+#print axioms Sst.C08_guard_invisible_read
+#print axioms Sst.C08_valid_streams_pass_guard
+#print axioms Sst.C08_length_bomb_rejected
+#print axioms Sst.C08_allocs_bounded_read_block
+#print axioms Sst.C08_allocs_bounded_read_table_block
+#print axioms Sst.C08_allocs_bounded_read_filter_block
+#print axioms Sst.C08_allocs_bounded_open
+#print axioms Sst.C08_open_fileSize
+#print axioms Sst.C08_allocs_bounded_get
+#print axioms Sst.C08_allocs_bounded_call
+#print axioms Sst.C08_allocs_bounded_run
+#print axioms Sst.C08_allocs_bounded_session
+#print axioms Sst.C08_allocs_invariant
